@@ -250,7 +250,15 @@ fn finish(p: &Prog, cx: &Cx, mode: &str) -> CaseResult {
     }
     let v = judge(p, &evals, &src, cx, true);
     let mut r = match &v.fail {
-        Some((s, m)) => CaseResult::fail(hash, s.clone(), m.clone()),
+        Some((s, m)) => {
+            // a program exposed to one of the file-global import tables says so in its signature
+            let hz = hazards(p, &evals);
+            let sig = match hz.first() {
+                Some(h) if !s.starts_with("c17:panic") => format!("c17:{h}-leak:{}", s.trim_start_matches("c17:")),
+                _ => s.clone(),
+            };
+            CaseResult::fail(hash, sig, m.clone())
+        }
         None => CaseResult::held(hash),
     };
     r.classes = v.classes;
@@ -419,15 +427,17 @@ fn exhaustive_cases() -> &'static Vec<Prog> {
     static CASES: OnceLock<Vec<Prog>> = OnceLock::new();
     CASES.get_or_init(|| {
         let mut out = vec![];
+        let mut seen = std::collections::BTreeSet::new();
         for (flags, spec) in rgen::exhaustive_specs() {
             let mut p = rgen::base_tree(flags);
             if rgen::apply_route(&mut p, &spec, 0).is_none() {
                 continue;
             }
+            if !seen.insert(render(&p)) {
+                continue;
+            }
             if let Outcome::Expect(_) = evaluate(&p) {
-                if !out.contains(&p) {
-                    out.push(p);
-                }
+                out.push(p);
             }
         }
         out
@@ -546,9 +556,9 @@ impl Prop for C17 {
             Tier::Thorough => (160_000, 140_000),
         };
         vec![
-            Space { name: "routes", size: ex, exhaustive: true, chunk: 1500, case_timeout_s: 20.0, what: "every single-reference program over mod ma { fn fa  mod mb { fn fb } } mod mc {}: 2 targets x 4 positions x 52 reference forms x 8 pub/private assignments x wrappers (well-formed ones)" },
-            Space { name: "positive", size: np, exhaustive: false, chunk: 500, case_timeout_s: 20.0, what: "random module trees (depth <= 3) with 1-4 legal references through random routes" },
-            Space { name: "negative", size: nn, exhaustive: false, chunk: 400, case_timeout_s: 20.0, what: "the same with exactly one pub flag switched off so that exactly one reference is illegal (and the all-legal twin)" },
+            Space { name: "routes", size: ex, exhaustive: true, chunk: 1500, case_timeout_s: 20.0, what: "every single-reference program over mod ma { fn fa  mod mb { fn fb } } mod mc {}: 2 targets x 4 positions x 51 reference forms x 8 pub/private assignments x 7 wrappers, well-formed ones only" },
+            Space { name: "positive", size: np, exhaustive: false, chunk: if tier == Tier::Quick { 500 } else { 4000 }, case_timeout_s: 20.0, what: "random module trees (depth <= 3) with 1-4 legal references through random routes" },
+            Space { name: "negative", size: nn, exhaustive: false, chunk: if tier == Tier::Quick { 400 } else { 3000 }, case_timeout_s: 20.0, what: "the same with exactly one pub flag switched off so that exactly one reference is illegal (and the all-legal twin)" },
         ]
     }
     fn run(&self, space: &str, index: u64, g: &mut Gen, cx: &Cx) -> CaseResult {
